@@ -191,7 +191,7 @@ class C17Noise(Machine):
             return {"op": k, "v": v, "k0": rng.randint(-n, n), "shift": rng.pick([1, -2, 7])}
         if k == "antenna_windows":
             return {"op": k, "unique": rng.pick([1, 2, 3]), "k0": rng.randint(-5, 20),
-                    "factor": rng.pick([2, 4, 6])}
+                    "factor": rng.pick([2, 4, 6]), "edit_returned": rng.chance(0.5)}
         if k == "independent":
             op = {"op": "independent"}
             inj = self._inject(rng)
@@ -199,7 +199,8 @@ class C17Noise(Machine):
                 op["inject"] = inj
             return op
         if k == "file_basis":
-            return {"op": "file_basis", "unique": rng.pick([1, 3]), "k0": rng.randint(-5, 20)}
+            return {"op": "file_basis", "unique": rng.pick([1, 3]), "k0": rng.randint(-5, 20),
+                    "silent_before": rng.pick([0, 1, 2]), "silent_after": rng.chance(0.5)}
         raise AssertionError(k)
 
     # ------------------------------------------------------------------
@@ -437,10 +438,17 @@ class C17Noise(Machine):
         w1 = self._grid(op["k0"], n)
         long_n = (op["unique"] * op["factor"] + 1) * n
         w2 = self._grid(op["k0"] - 3, long_n)
-        st, res = self.sut(lambda: (np.array(ant.make_noise(w1).values, dtype=float),
-                                    np.array(ant.make_noise(w2).values, dtype=float),
-                                    np.array(ant.make_noise(w1).values, dtype=float)),
-                           where="Antenna.make_noise")
+        def run():
+            first = ant.make_noise(w1)
+            a = np.array(first.values, dtype=float)
+            if op.get("edit_returned"):
+                # the caller owns what make_noise returned: editing it in place must not
+                # change the antenna's noise
+                first *= 3.0
+                first.shift(5 * dt)
+            return a, np.array(ant.make_noise(w2).values, dtype=float), \
+                np.array(ant.make_noise(w1).values, dtype=float)
+        st, res = self.sut(run, where="Antenna.make_noise")
         v1, v2, v3 = res
         self.count("probe.antenna_windows")
         self.nontrivial = True
@@ -500,6 +508,11 @@ class C17Noise(Machine):
         dt = self.cfg["dt"]
         ant = P.Antenna(position=(0, 0, -100), noisy=True, freq_range=(0.1 / dt, 0.35 / dt),
                         noise_rms=1.0, unique_noise_waveforms=op["unique"])
+        # antennas that never made any noise sit in front of / behind the noisy one
+        silent = [P.Antenna(position=(0, 0, -120 - 10 * i), noisy=bool(i % 2), freq_range=(0.1 / dt, 0.35 / dt),
+                            noise_rms=1.0) for i in range(op.get("silent_before", 0))]
+        silent_after = [P.Antenna(position=(0, 0, -200), noisy=False)] if op.get("silent_after") else []
+        detector = silent + [ant] + silent_after
         window = self._grid(op["k0"])
         st, first = self.sut(lambda: np.array(ant.make_noise(window).values, dtype=float),
                              where="make_noise")
@@ -514,7 +527,7 @@ class C17Noise(Machine):
                                 write_rays=False, write_noise=True, write_waveforms=False,
                                 require_trigger=False)
             w.open()
-            w.set_detector([ant])
+            w.set_detector(detector)
             w.add(event)
             w.close()
         self.sut(write, where="write noise basis")
@@ -524,7 +537,12 @@ class C17Noise(Machine):
             r.open()
             out = None
             for ev in r:
-                out = [np.array(x, dtype=float) for x in ev.noise_bases[0]]
+                nb = ev.noise_bases
+                for j in range(len(detector)):
+                    if j != len(silent) and any(len(x) for x in nb[j]):
+                        raise Violation("C17:file-basis", "an antenna that never made noise reads back with "
+                                        "a noise basis (column %d)" % j)
+                out = [np.array(x, dtype=float) for x in nb[len(silent)]]
             r.close()
             return out
         st, basis = self.sut(read, where="read noise basis")
